@@ -86,11 +86,18 @@ func main() {
 			b, _ := json.Marshal(sc)
 			res.Samples = append(res.Samples, b)
 		}
-		if i%97 == 0 { // in-process determinism re-check
+		if i%97 == 0 && !(o.V != nil && (o.V.Oracle == "race" || strings.HasPrefix(o.V.Oracle, "sched."))) {
+			// in-process determinism re-check (not after a race report: the detector reports a race once per process;
+			// not after a scheduler error: parked tasks remain)
 			o2 := e.Exec(sc)
 			res.Recheck++
 			if o2.Digest != o.Digest || (o2.V == nil) != (o.V == nil) {
-				res.RecheckDiff++
+				if o2.V != nil && o2.V.Oracle == "race" {
+					// the re-execution tripped a race the first one did not report: a violation, not a harness defect
+					o = o2
+				} else {
+					res.RecheckDiff++
+				}
 			}
 		}
 		if o.V != nil {
@@ -130,7 +137,11 @@ func main() {
 			seenViol["min:"+mkey] = true
 			b, _ := json.Marshal(min)
 			rp := sim.Replay{Property: *prop, Seed: *seed, RunIndex: i, Violation: mv, Script: b, Build: *build}
-			path := filepath.Join(*replayDir, fmt.Sprintf("%s-%d-%d.json", *prop, *seed, i))
+			tag := ""
+			if *build != "" && *build != "plain" {
+				tag = "-" + *build
+			}
+			path := filepath.Join(*replayDir, fmt.Sprintf("%s-%d-%d%s.json", *prop, *seed, i, tag))
 			rb, _ := json.MarshalIndent(rp, "", " ")
 			if err := os.WriteFile(path, rb, 0644); err != nil {
 				fmt.Fprintln(os.Stderr, "worker: cannot write replay:", err)
@@ -188,7 +199,19 @@ func doReplay(path string, verbose bool) int {
 		return 2
 	}
 	o := e.Exec(sc)
-	outp := map[string]interface{}{"property": rp.Property, "violation": o.V, "digest": o.Digest}
+	attempts := 1
+	if rp.Violation != nil && rp.Violation.Oracle == "race" {
+		// The schedule replays exactly, but whether the race detector reports a race also depends on
+		// process history outside the scheduler's control (one-time initialisation and sync.Pool reuse
+		// create happens-before edges in the first executions of a fresh process; in race builds
+		// sync.Pool drops items at random). The script is therefore re-executed until the detector
+		// reports (it reports a given race once per process, so the first report ends the loop).
+		for o.V == nil && attempts < 40 {
+			o = e.Exec(sc)
+			attempts++
+		}
+	}
+	outp := map[string]interface{}{"property": rp.Property, "violation": o.V, "digest": o.Digest, "executions": attempts}
 	if rp.Violation != nil {
 		outp["expected_oracle"] = rp.Violation.Oracle
 		outp["expected_class"] = rp.Violation.Class
